@@ -45,7 +45,12 @@ HV == <<
   [h |-> Hd(5, 32, 1, 5, FALSE, FALSE), pre |-> <<>>, apre |-> 1, sf |-> "refu2",   sibfirst |-> FALSE],
   [h |-> Hd(4, 32, 4, 1, TRUE,  TRUE),  pre |-> <<64>>, apre |-> 1, sf |-> "ref4",    sibfirst |-> FALSE],
   [h |-> Hd(5, 64, 8, 6, TRUE,  FALSE), pre |-> <<>>, apre |-> 0, sf |-> "ref4",    sibfirst |-> TRUE],
-  [h |-> Hd(5, 32, 4, 3, FALSE, FALSE), pre |-> <<32, 64>>, apre |-> 1, sf |-> "ref8",    sibfirst |-> TRUE] >>
+  [h |-> Hd(5, 32, 4, 3, FALSE, FALSE), pre |-> <<32, 64>>, apre |-> 1, sf |-> "ref8",    sibfirst |-> TRUE],
+  (* 10-13: section-relative and ill-classed DW_AT_sibling, in later units and in the first *)
+  [h |-> Hd(4, 32, 8, 1, TRUE,  FALSE), pre |-> <<32>>, apre |-> 0, sf |-> "refaddr", sibfirst |-> TRUE],
+  [h |-> Hd(5, 32, 4, 1, TRUE,  FALSE), pre |-> <<32>>, apre |-> 1, sf |-> "data4",   sibfirst |-> FALSE],
+  [h |-> Hd(3, 32, 4, 1, FALSE, FALSE), pre |-> <<64>>, apre |-> 0, sf |-> "udata2",  sibfirst |-> TRUE],
+  [h |-> Hd(5, 64, 8, 1, TRUE,  FALSE), pre |-> <<>>,   apre |-> 0, sf |-> "refaddr", sibfirst |-> FALSE] >>
 
 Tags == <<17, 46, 16649, 36, 65535, 11>>          \* incl. 2- and 3-byte ULEB tags
 CodesOf(scheme, n) ==
@@ -121,20 +126,25 @@ AbCase(cs) ==
 (* ---------------- init / next ------------------------------------------- *)
 (* combos selectable from a cfg (cfg files cannot express tuples) *)
 CombosQuick == {<<1, "seq">>, <<2, "huge">>, <<3, "perm">>, <<6, "sparse">>}
-FullQuick   == <<<<1, "seq">>, <<2, "huge">>>>
+(* the full combos range over every DW_AT_sibling form and over first / later units *)
+FullQuick   == <<<<1, "seq">>, <<2, "huge">>, <<10, "huge">>, <<4, "sparse">>, <<5, "seq">>, <<6, "sparse">>, <<11, "seq">>,
+                 <<10, "seq">>, <<12, "perm">>, <<13, "seq">>, <<3, "perm">>>>
 CombosThorough == {<<1, "seq">>, <<1, "huge">>, <<2, "huge">>, <<3, "perm">>, <<4, "sparse">>, <<4, "seq">>, <<5, "seq">>,
                    <<6, "sparse">>, <<7, "huge">>, <<7, "perm">>, <<8, "perm">>, <<9, "sparse">>}
-FullThorough   == <<<<1, "seq">>, <<2, "huge">>, <<3, "perm">>, <<6, "sparse">>>>
+FullThorough   == FullQuick \o <<<<7, "huge">>, <<8, "perm">>, <<9, "sparse">>, <<11, "huge">>, <<12, "sparse">>>>
 CombosTiny == {<<1, "seq">>}
 FullTiny == <<<<1, "seq">>>>
 (* FullCombos is a sequence.  Rotate = TRUE: each forest gets the state-graph exploration  *)
 (* under one of them (chosen by a checksum of the forest); FALSE: under all of them.      *)
 RECURSIVE SumSeq(_)
 SumSeq(q) == IF q = <<>> THEN 0 ELSE Head(q) + SumSeq(Tail(q))
-IsFull(F, cb) == IF Rotate
-                 THEN cb = FullCombos[(SumSeq([v \in DOMAIN F |-> F[v].par + (IF F[v].hc THEN 1 ELSE 0) + (IF F[v].sib THEN 1 ELSE 0)])
-                                       % Len(FullCombos)) + 1]
-                 ELSE \E i \in DOMAIN FullCombos : FullCombos[i] = cb
+(* the combo a forest is explored under when rotating: a positional checksum of the forest and its padding *)
+RotCombo(F, pad) == FullCombos[((SumSeq([v \in DOMAIN F |-> v * (F[v].par + (IF F[v].hc THEN 2 ELSE 0) + (IF F[v].sib THEN 3 ELSE 0))]) + pad)
+                                % Len(FullCombos)) + 1]
+IsFull(F, pad, cb) == IF Rotate THEN cb = RotCombo(F, pad) ELSE \E i \in DOMAIN FullCombos : FullCombos[i] = cb
+(* the combos a forest's stream is emitted under *)
+StreamCombos(F, pad) == LET full == IF Rotate THEN {RotCombo(F, pad)} ELSE {FullCombos[i] : i \in DOMAIN FullCombos} IN
+                        IF Len(F) >= RestrictN THEN full ELSE Combos \cup full
 (* the token fields the machines need (attribute values stay out of the state) *)
 Slim(T) == [i \in DOMAIN T |-> [k |-> T[i].k, node |-> T[i].node, cl |-> T[i].cl, d |-> T[i].d, off |-> T[i].off,
                                 tag |-> T[i].tag, hc |-> T[i].hc, sib |-> T[i].sib, attrs |-> [j \in DOMAIN T[i].attrs |-> 0]]]
@@ -160,13 +170,13 @@ Finish == /\ s.ph = "build" /\ Len(s.F) >= 1
           /\ \E sibs \in [{v \in DOMAIN s.F : s.F[v].hc} -> BOOLEAN] :
              \E g \in (IF Len(s.F) >= RestrictN THEN {FALSE} ELSE BOOLEAN) :
              \E pad \in (IF Len(s.F) >= RestrictN THEN {0} ELSE Pads) :
-             \E cb \in (IF Len(s.F) >= RestrictN THEN {FullCombos[i] : i \in DOMAIN FullCombos} ELSE Combos) :
-               LET F == [v \in DOMAIN s.F |-> [s.F[v] EXCEPT !.sib = IF s.F[v].hc THEN sibs[v] ELSE g]]
-                   st == MkStream(F, pad, HV[cb[1]], cb[2])
+             LET F == [v \in DOMAIN s.F |-> [s.F[v] EXCEPT !.sib = IF s.F[v].hc THEN sibs[v] ELSE g]] IN
+             \E cb \in StreamCombos(F, pad) :
+               LET st == MkStream(F, pad, HV[cb[1]], cb[2])
                    sid == <<[v \in DOMAIN F |-> F[v].par], [v \in DOMAIN F |-> IF F[v].hc THEN 1 ELSE 0],
                             [v \in DOMAIN F |-> IF F[v].sib THEN 1 ELSE 0], pad, cb[1], cb[2]>> IN
                /\ Assert(WellFormedForest(F) /\ DepthsOk(st.T, 1, 0) /\ st.storeok, <<"generator", sid>>)
-               /\ s' = [ph |-> "ready", sid |-> sid, F |-> F, T |-> Slim(st.T), E |-> st.E, full |-> IsFull(F, cb)]
+               /\ s' = [ph |-> "ready", sid |-> sid, F |-> F, T |-> Slim(st.T), E |-> st.E, full |-> IsFull(F, pad, cb)]
                /\ Emit(StreamCase(sid, st))
           /\ UNCHANGED wit
 Start == /\ s.ph = "ready" /\ s.full
